@@ -255,6 +255,10 @@ def run(ctx):
                  "association: hook lines AssocOpen/AssocAddPeer/PeerClosed(argument, found, was, left)/AssocRelease/AssocError/S5Write/"
                  "S5Send, invariants AssocIffLive/SiblingsUndisturbed/NoEmptyAssoc/GaugeExact (one guard per association)."),
     }
+    # the multiplexer behind a real HTTP/3 session (quiche client, real direct forwarder, loopback echo servers)
+    import c06
+    h3r = c06.h3_mux_job(ctx)
+    cov["http3_multiplexer_round_trips"] = h3r["counters"].get("flows_round_trips", 0)
     return ctx.finish("model_checking", cov, assumptions=[
         "error kinds of a flow's socket: ECONNREFUSED (closed port, real ICMP), EHOSTUNREACH (ICMP type 3 code 13 forged with a raw socket on loopback, quoting the flow's datagram; needs root - without a raw socket the Fault operations are skipped and the check fails as vacuous), EMSGSIZE (a client datagram one octet longer than the socket carries: more than the mux wire format's decoder admits, the pipe is driven through the door); other kinds (EPERM, ENETUNREACH, ENOBUFS) follow the same code path and are not provoked",
         "payload lengths: the models use {0, f} octets for flow f (which one is fixed by the parity of the operation's position); the real runs use 0, 1, 5..30 and the largest datagram the loopback sockets carry (65507 direct, 65497 behind the 10-octet SOCKS5 header), chosen by the datagram's number; an empty or one-octet datagram is identified by order (oldest outstanding of that label and length)",
